@@ -28,6 +28,7 @@ type c19Case struct {
 type c19Variant struct {
 	Kind, Place          string
 	OX, OY, PadR, PadB   int
+	PadBytes             int // stride placement: extra bytes per row beyond whole pixels
 	Garbage              uint64
 }
 
@@ -68,6 +69,9 @@ func genC19(t *rapid.T) *c19Case {
 		v.Place = rapid.SampledFrom(places).Draw(t, "vPlace")
 		v.OX, v.OY = rapid.IntRange(0, 11).Draw(t, "vox"), rapid.IntRange(0, 11).Draw(t, "voy")
 		v.PadR, v.PadB = rapid.IntRange(0, 7).Draw(t, "vpr"), rapid.IntRange(0, 7).Draw(t, "vpb")
+		if v.Place == "stride" {
+			v.PadBytes = rapid.SampledFrom([]int{0, 0, 1, 2, 3, 5, 6, 13}).Draw(t, "vpbytes")
+		}
 		v.Garbage = rapid.Uint64().Draw(t, "vg")
 		c.Variant = append(c.Variant, v)
 	}
@@ -94,7 +98,7 @@ func backingHash(s *gen.Img, img image.Image) [32]byte {
 // the colours it yields (read through At).
 func c19StdImage(orig *gen.Img, v c19Variant) image.Image {
 	s := *orig
-	s.Kind, s.Place, s.OX, s.OY, s.PadR, s.PadB, s.Garbage = v.Kind, v.Place, v.OX, v.OY, v.PadR, v.PadB, v.Garbage
+	s.Kind, s.Place, s.OX, s.OY, s.PadR, s.PadB, s.PadBytes, s.Garbage = v.Kind, v.Place, v.OX, v.OY, v.PadR, v.PadB, v.PadBytes, v.Garbage
 	return s.Build()
 }
 
@@ -142,7 +146,7 @@ func checkC19(c *c19Case, o *core.Obs) error {
 	kinds := ""
 	for _, v := range c.Variant {
 		s := base
-		s.Kind, s.Place, s.OX, s.OY, s.PadR, s.PadB, s.Garbage = v.Kind, v.Place, v.OX, v.OY, v.PadR, v.PadB, v.Garbage
+		s.Kind, s.Place, s.OX, s.OY, s.PadR, s.PadB, s.PadBytes, s.Garbage = v.Kind, v.Place, v.OX, v.OY, v.PadR, v.PadB, v.PadBytes, v.Garbage
 		img := s.Build()
 		before := backingHash(&s, img)
 		flushPools()
@@ -174,7 +178,7 @@ func checkC19(c *c19Case, o *core.Obs) error {
 	for round := 0; round < 2; round++ {
 		for _, v := range c.Variant {
 			s := base
-			s.Kind, s.Place, s.OX, s.OY, s.PadR, s.PadB, s.Garbage = v.Kind, v.Place, v.OX, v.OY, v.PadR, v.PadB, v.Garbage
+			s.Kind, s.Place, s.OX, s.OY, s.PadR, s.PadB, s.PadBytes, s.Garbage = v.Kind, v.Place, v.OX, v.OY, v.PadR, v.PadB, v.PadBytes, v.Garbage
 			got, err := encodeImg(s.Build(), c.Opts)
 			if err != nil || !bytes.Equal(ref, got) {
 				return fmt.Errorf("%s: presentation %s/%s encoded right after other presentations of the same picture gives different bytes than the tight NRGBA at the origin (err=%v, len %d vs %d)", codec, v.Kind, v.Place, err, len(got), len(ref))
